@@ -80,11 +80,13 @@ theorem readLen_adv (cfg : Cfg) (n : Int) (d d' : Dec) (bs : Bytes) (h : readLen
   · split at h
     · split at h <;> simp at h
     · split at h
-      · rename_i h1 h2 h3
-        simp only [Res.ok.injEq] at h
-        rw [← h.2]
-        exact ⟨n.toNat, h3, rfl, by simp; omega⟩
       · simp at h
+      · split at h
+        · rename_i h1 h2 hg h3
+          simp only [Res.ok.injEq] at h
+          rw [← h.2]
+          exact ⟨n.toNat, h3, rfl, by simp; omega⟩
+        · simp at h
 
 theorem allocElems_adv (cfg : Cfg) (n : Int) (d d' : Dec) (k : Nat) (h : allocElems cfg n d = .ok k d') : d' = d := by
   unfold allocElems at h
@@ -92,7 +94,9 @@ theorem allocElems_adv (cfg : Cfg) (n : Int) (d d' : Dec) (k : Nat) (h : allocEl
   · split at h <;> simp at h
   · split at h
     · split at h <;> simp at h
-    · simp only [Res.ok.injEq] at h; exact h.2.symm
+    · split at h
+      · simp at h
+      · simp only [Res.ok.injEq] at h; exact h.2.symm
 
 theorem tagCount_adv (cfg : Cfg) (u : Nat) (d d' : Dec) (k : Nat) (h : tagCount cfg u d = .ok k d') : d' = d := by
   unfold tagCount at h
